@@ -1,4 +1,5 @@
 import ZbossModel.Proofs.HostBound
+import ZbossModel.Proofs.HostRest
 /-! # C13 - a finished request leaves nothing behind, however it finished
 
 `Host.step` is the request machine at quiescent points: request start, ACK / response bytes,
@@ -68,8 +69,16 @@ theorem C13_late_response_no_effect (st : St) (key : Nat) (hnone : st.listeners.
   have hf : st1.listeners.find? (fun l => l.2 == key) = none := by rw [h1.1]; exact hnone
   rw [hf]
   simp only []
-  rw [settle_idle _ _ (by rw [h1.2.2.1]; exact hq)]
+  rw [settleAll, settle_idle _ _ (by rw [h1.2.2.1]; exact hq)]
   exact ⟨h1.2.1, h1.1, by rw [h1.2.2.1]; exact hq, h1.2.2.2⟩
+
+/-- ... in particular after every history (the loop is at rest in every reachable state) -/
+theorem C13_late_response_no_effect_reachable (evs : List Ev) (key : Nat)
+    (hnone : (runEvents {} evs).1.listeners.find? (fun l => l.2 == key) = none) :
+    (step (runEvents {} evs).1 (.rxRsp key)).reqs = (runEvents {} evs).1.reqs ∧
+    (step (runEvents {} evs).1 (.rxRsp key)).listeners = (runEvents {} evs).1.listeners :=
+  let h := C13_late_response_no_effect _ key hnone (rest_reachable evs)
+  ⟨h.1, h.2.1⟩
 
 /-! ## non-vacuity: a request cancelled while queued behind the message lock leaves no listener, and the
     response that arrives later goes to the next request for that command -/
